@@ -561,6 +561,10 @@ async def scenario(rng, backend, tier, hostile=False):
             e = rng.choice(evs)
             if rng.random() < 0.12:
                 e = dict(e, sig="00" * 64)
+            elif rng.random() < 0.1:
+                # correctly signed, but the storage engine cannot hold it: add_event raises something that is
+                # neither StorageError nor AuthenticationError - the EVENT must still be answered by one OK frame
+                e = env.mk_event(rng.randrange(3), rng.choice([2 ** 63, 2 ** 64, -(2 ** 63) - 1]), env.NOW - 7, [], "big kind")
             if rng.random() < 0.08:
                 await d.msg(c.cid, ["EVENT", rng.choice([e, e, {}, 5, [], {"id": e["id"]}])], limited=True)
             else:
@@ -867,6 +871,9 @@ def hostile_frames(rng, evs):
             out.append(["REQ", "h", {k: v}])
     for v in JSON_TYPES:
         out.append(v)
+    for k in (2 ** 63, 2 ** 64, -(2 ** 63) - 1):
+        out.append(["EVENT", env.mk_event(1, k, env.NOW - 7, [], "big kind")])
+        out.append(["EVENT", env.mk_event(1, 1, k, [], "big time")])
     return out
 
 
